@@ -27,7 +27,7 @@ from unittest import mock
 
 import core
 
-READY = False
+READY = True
 MANIFEST = dict(
     technique='Lean 4 theorems over a transcribed decision model (finite configuration space decided completely, event '
               'sequences by induction); translator enumerates the address-producing sites dynamically from a real '
